@@ -330,10 +330,15 @@ def write_ndjson(path, rows):
 # --------------------------------------------------------------------------- findings / verdicts
 
 def known_findings():
+    out = []
     p = os.path.join(VERIF, "KNOWN_FINDINGS.json")
-    if not os.path.exists(p):
-        return []
-    return json.load(open(p)).get("findings", [])
+    if os.path.exists(p):
+        out += json.load(open(p)).get("findings", [])
+    # fragments written by work in progress on one property (merged into KNOWN_FINDINGS.json on integration)
+    import glob
+    for f in sorted(glob.glob(os.path.join(VERIF, "findings", "*.json"))):
+        out += json.load(open(f)).get("findings", [])
+    return out
 
 
 class Verdict:
